@@ -198,7 +198,6 @@ package dht
 //@ func (*dht.Server).sendError
 //@   trusted
 
-
 //@ spec def needsargs(q string) bool = q == "find_node" || q == "get_peers" || q == "announce_peer" || q == "put" || q == "get"
 //@ spec def known(q string) bool = q == "ping" || needsargs(q)
 //@ spec def writes(q string) bool = q == "announce_peer" || q == "put"
@@ -487,7 +486,7 @@ package dht
 
 //@ func (*dht.bucket).AddNode
 //@   requires nonnil: b != nil
-//@   modifies cell(b.nodes), b.nodes, b.lastChanged
+//@   modifies cell(b.nodes), b.nodes, b.lastChanged, b.changed.ch
 //@   ensures member: n in b.nodes
 //@   ensures others-untouched: forall m *node :: m != n ==> (m in b.nodes) == old(m in b.nodes)
 //@   ensures grows-by-one-if-new: !old(n in b.nodes) ==> len(b.nodes) == old(len(b.nodes)) + 1
@@ -614,3 +613,13 @@ package dht
 //@   callsite (*dht.Server).processPacket only-datagrams-from-unblocked-sources: !recorded("srcblocked") && !recorded("closed") && $addr == recorded("newaddr") && !held(s.mu)
 //@   loop 1
 //@     invariant no-lock-held-between-datagrams: !held(s.mu) && !held(s.store.mu)
+
+// ---- C14: a lookup that was started is stopped on every path ----
+//@ func (*dht.Server).TraversalStartingNodes
+//@   trusted
+//@ func (*dht.Server).BootstrapContext
+//@   requires nonnil: s != nil && ctx != nil && !held(s.mu)
+//@   modifies *
+//@   callsite (*dht/traversal.Operation).Stop the-lookup-started-here: $op == recorded("lookup")
+//@   ensures the-lookup-started-is-stopped-on-every-path: count("call:dht/traversal.Start") == count("call:(*dht/traversal.Operation).Stop")
+//@   ensures one-lookup-at-most: count("call:dht/traversal.Start") <= 1
